@@ -9,6 +9,7 @@ import (
 
 func main() {
 	run := ev.Start("C14")
+	defer run.Guard()
 	run.Rule("A: EncodeTunnelledQuery -> DecodeTunnelledQuery pairs over verbs x hostile queries x bodies (verb, raw query, body bytes, content type, headers must be restored). " +
 		"B: every call kind is sent through the real client and a real loopback server twice, tunnelling off and on with thresholds {1, len-1, len, len+1, large}; the wire tap decides tunnelled <=> len(query) > T, " +
 		"and the request snapshot taken inside resource code (verb, path, raw query, body, content type, Rest.li headers) must be identical. C: hand-built malformed tunnelled requests must get 400 and no invocation. " +
